@@ -19,7 +19,7 @@ const (
 	lineSize = 64
 	maxBuf   = 5 * pageSize
 	// maxScratch bounds a buffer that only kernels write (to dirty many cache lines)
-	maxScratch = 192 * pageSize
+	maxScratch = 320 * pageSize
 )
 
 // Buf is one device buffer of a case.
